@@ -16,7 +16,7 @@ from pydrobert.speech import compute as _compute
 PROPERTY = "C01"
 LEVEL = "exploration"
 TIERS = {
-    "quick": {"runs": 24000, "budget": 75, "selftest": 32, "shrink_budget": 400},
+    "quick": {"runs": 120000, "budget": 70, "selftest": 64, "shrink_budget": 400},
     "thorough": {"runs": 600000, "budget": 1500, "selftest": 2000, "shrink_budget": 1500},
 }
 RULE = (
